@@ -591,4 +591,54 @@ theorem learn_handshake {P s a k q id val} (hi : Inv P s) (hquiet : s.quiescent)
   rw [quiescent_bindings hi ⟨hq1, hq2⟩, ← e1n] at hb'
   rw [hrt3]; exact hold2 id' b hb'
 
+theorem hazard_api (s : Sys) : (∀ a k, hazard s (.map a k) = false) ∧ (∀ a k, hazard s (.unmap a k) = false) ∧
+    hazard s .clear = false := by
+  simp [hazard, hazardK1, hazardK2]
+
+theorem unmap_step_ok {P s} (hi : Inv P s) (a : Nat) (k : Bool) :
+    ∃ s1 ms, step P s (.unmap a k) = some (s1, []) ∧ Inv P s1 ∧ s1.rt = s.rt ∧ s1.toNRT = s.toNRT ∧
+      s1.toRT = s.toRT ++ ms ∧ s.nrt.unMap a k = some (s1.nrt, ms) := by
+  obtain ⟨n', ms, heq, _⟩ := unMap_ok hi.nrt a k
+  obtain ⟨s', he, hinv, _⟩ := step_unmap_ok hi a k
+  have hstep : step P s (.unmap a k) = some ({ s with nrt := n', toRT := s.toRT ++ ms }, []) := by
+    simp [step, heq]
+  rw [hstep] at he; cases he
+  exact ⟨_, ms, hstep, hinv, rfl, rfl, rfl, heq⟩
+
+/-- **unMap, end to end** from a state with nothing under way: once the resulting
+    `midi-bind` (if any) has been delivered, no controller drives `(a,k)` any more and every
+    other binding of the RT half is as before. -/
+theorem unmap_handshake {P s} (hi : Inv P s) (hquiet : s.quiescent) (a : Nat) (k : Bool) :
+    ∃ s1 s2, step P s (.unmap a k) = some (s1, []) ∧ hazard s (.unmap a k) = false ∧
+      step P s1 .deliverRT = some (s2, []) ∧ hazard s1 .deliverRT = false ∧
+      Inv P s2 ∧ s2.quiescent ∧
+      (∀ id, s2.rt.binding id ≠ some (a, k)) ∧
+      (∀ id b, s.rt.binding id = some b → b ≠ (a, k) → s2.rt.binding id = some b) := by
+  obtain ⟨hq1, hq2⟩ := hquiet
+  have hpend : s.rt.pending = [] := by rw [hi.pend, hq1, hq2]; simp [flightOf]
+  obtain ⟨s1, ms, h1, hi1, e1rt, e1q, e1r, hun⟩ := unmap_step_ok hi a k
+  obtain ⟨hkeep, hstop⟩ := unMap_bindings hi.nrt hun
+  obtain ⟨n', ms', heq, _, _, _, _, _, hcase⟩ := unMap_ok hi.nrt a k
+  rw [hun] at heq; cases heq
+  have hqb := quiescent_bindings hi ⟨hq1, hq2⟩
+  rcases hcase with ⟨rfl, hst⟩ | ⟨c, st, ns, im, _, _, _, _, _, hst', rfl⟩
+  · -- nothing was bound: no message, the delivery step is a no-op
+    have hr1 : s1.toRT = [] := by rw [e1r, hq1]; rfl
+    have hz : hazard s1 .deliverRT = false := by simp [hazard, hazardK1, hazardK2, hr1]
+    have h2 : step P s1 .deliverRT = some (s1, []) := by simp [step, hr1]
+    have hb : s1.rt.binding = s1.nrt.binding := by
+      rw [e1rt, hqb]; funext x; simp [NRT.binding, hst]
+    refine ⟨s1, s1, h1, (hazard_api s).2.1 a k, h2, hz, hi1, ⟨hr1, by rw [e1q, hq2]⟩, ?_, ?_⟩
+    · intro id; rw [hb]; exact hstop id
+    · intro id b hb' hne; rw [hb]; rw [hqb] at hb'; exact hkeep id b hb' hne
+  · have hr1 : s1.toRT = .bind ns none :: [] := by rw [e1r, hq1]; rfl
+    have hz : hazard s1 .deliverRT = false := by
+      simp [hazard, hazardK1, hazardK2, hr1, e1rt, hpend]
+    obtain ⟨s2, ns', h2, hi2, e2n, e2q, e2r, hst2, _, _, hm, hc⟩ := deliverRT_bind_ok hi1 hr1 hz
+    have hb : s2.rt.binding = s1.nrt.binding := by
+      funext x; simp only [RT.binding, hst2, NRT.binding, hst']; rw [binding_congr hm hc]
+    refine ⟨s1, s2, h1, (hazard_api s).2.1 a k, h2, hz, hi2, ⟨e2r, by rw [e2q, e1q, hq2]⟩, ?_, ?_⟩
+    · intro id; rw [hb]; exact hstop id
+    · intro id b hb' hne; rw [hb]; rw [hqb] at hb'; exact hkeep id b hb' hne
+
 end Rtosc.Midi
